@@ -557,7 +557,13 @@ impl<'a> Searcher<'a> {
             }
         }
 
-        self.results_writer.write_footer(&mut std::io::stdout())?;
+        if let Err(e) = self.results_writer.write_footer(&mut std::io::stdout()) {
+            if e.kind() == ErrorKind::BrokenPipe {
+                return Ok(());
+            }
+
+            return Err(e);
+        }
 
         let completion_time = std::time::Instant::now();
         
